@@ -158,7 +158,7 @@ func (s *sandboxFacts) summariseGuards(method string) map[*ssa.Function]int {
 					return
 				}
 				nret++
-				r := ret.Results[0]
+				r := retResults(ret)[0]
 				passing := true // may this return signal "go ahead"?
 				if isErr {
 					if mi, ok := r.(*ssa.MakeInterface); ok {
